@@ -129,10 +129,11 @@ CHECKS["C23"] = dict(
     entries=[
         dict(name="harness_c23_ring", quick={"nprimes": 3, "nmax": 3}, thorough={"nprimes": 5, "nmax": 4}),
         dict(name="harness_c23_div", quick={"nprimes": 2, "nmax": 3}, thorough={"nprimes": 4, "nmax": 4}),
-        dict(name="harness_c23_factor", quick={"nprimes": 2, "fmax": 2}, thorough={"nprimes": 4, "fmax": 3}),
+        dict(name="harness_c23_factor", quick={"nprimes": 3, "fmax": 2, "max_random": 3}, thorough={"nprimes": 4, "fmax": 2, "max_random": 5, "_wall": 2400}),
+        dict(name="harness_c23_factor_deg3", quick={"nprimes": 2, "fmax": 3, "max_random": 3}, thorough={"nprimes": 3, "fmax": 3, "max_random": 4, "_wall": 2400}),
     ],
     anchors=["SymEngine::GaloisFieldDict::gf_div", "SymEngine::GaloisFieldDict::mul", "SymEngine::GaloisFieldDict::gf_gcd", "SymEngine::GaloisFieldDict::gf_factor", "SymEngine::GaloisFieldDict::gf_monic"],
-    bounds="p in {2,3,5} (thorough adds 7, 11), coefficient vectors of length <= 3 (4) with symbolic entries in [0,p); ring operations, division with remainder, gcd, monic, powers <= 3, evaluation at a symbolic point, derivative; factorisation of polynomials of degree <= 2 (3): product of factors, monic, irreducible (no root, degree <= 3); mp_urandomm returns a symbolic value so the randomised algorithms are checked for every random choice",
+    bounds="p in {2,3,5} (thorough adds 7, 11), coefficient vectors of length <= 3 (4) with symbolic entries in [0,p); ring operations, division with remainder, gcd, monic, powers <= 3, evaluation at a symbolic point, derivative; factorisation of polynomials of degree <= 2 over p <= 5 (7) and of degree 3 over p <= 3 (5): product of factors, monic, irreducible (no root, degree <= 3); mp_urandomm returns a symbolic value so the randomised algorithms are checked for every random choice, with at most 3 (6) random draws per run (runs needing more draws are outside the claim)",
     outside=["degree above 3", "primes above 11", "gf_compose_mod, gf_trace_map, lcm"],
 )
 
